@@ -120,6 +120,8 @@ func suiteLoops(c *Ctx) {
 	twoTriggerScenario(c)
 	commitPanicScenario(c)
 	staleSyncRaces(c)
+	triggerRaces(c)
+	slowElectionCallback(c)
 }
 
 // stressLoops: many concurrent API callers against one running MainLoop with the REAL timer-based
@@ -292,7 +294,7 @@ func libraryGoroutines() (int, string) {
 	cnt := 0
 	var which []string
 	for _, g := range strings.Split(string(buf[:n]), "\n\n") {
-		for _, fn := range []string{"(*WorkerLoop).Run", "(*MainLoop).run", "(*TimerBasedElectionTrigger)", "requestOrderedCommitteePersist"} {
+		for _, fn := range []string{"(*WorkerLoop).Run", "(*MainLoop).run", "(*TimerBasedElectionTrigger)", "requestOrderedCommitteePersist", "(*TermInCommittee)"} {
 			if strings.Contains(g, "lean-helix-go") && strings.Contains(g, fn) {
 				cnt++
 				which = append(which, fn)
@@ -718,6 +720,12 @@ func shutdownScenarios(c *Ctx) {
 			stopped = true
 			mu.Unlock()
 			live, which := libraryGoroutines()
+			if live > 0 && strings.Count(which, "(*TimerBasedElectionTrigger)") == live {
+				// only timer callbacks: a fired timer whose callback the shutdown has just cancelled may still be on its way
+				// out (it can do nothing any more); it must be gone a moment later — a leak is judged below as well
+				time.Sleep(25 * time.Millisecond)
+				live, which = libraryGoroutines()
+			}
 			fm.mu.Lock()
 			callsAtShutdown := fm.calls
 			fm.mu.Unlock()
